@@ -77,7 +77,8 @@ class Ownership(Machine):
                        "edit_value_after_assign", "edit_stored_group", "copy_pair_static_sharing_checked",
                        "mutator_on_copy", "transform_owner", "non_pointcloud_value_rejected", "copy_of_copy",
                        "apply_on_copy_pair", "apply_repeated_after_other_activity", "alignment_parameter_update",
-                       "own_group_stored_under_second_name", "owner_taken_to_another_dimensionality")
+                       "own_group_stored_under_second_name", "owner_taken_to_another_dimensionality",
+                       "own_manager_assigned_back")
 
     @classmethod
     def swarm(cls, rng, tier):
@@ -365,8 +366,11 @@ class Ownership(Machine):
         ctx = self.ctx
         owner = self._pick(("owner",), op["i"])
         src = self._pick(("manager", "owner"), op["j"])
-        if owner is None or src is None or src is owner:
+        if owner is None or src is None:
             return
+        if src is owner:
+            # x.landmarks = x.landmarks (or via a variable): nothing may be lost
+            self.ctx.probe("own_manager_assigned_back")
         m = self._mgr(src)
         md = m[list(src.groups)[0]].n_dims if src.groups else None
         try:
